@@ -110,6 +110,19 @@ def main(chk):
                 if claim is S.TRUE:
                     item['obs'].append((name, 'proved', None, 0.0, core, True)); return
                 t = time.time(); stt, model = SV.prove(z2, pc, claim, 20000)
+                if stt == 'unknown':
+                    # directed search for a counterexample with the scalar parameters fixed (a refutation found this way is a refutation of the
+                    # general claim; a proof under fixed parameters is not a proof, the obligation then stays undecided)
+                    from fractions import Fraction as Fr
+                    for (ca, cr) in (((Fr(1, 2), Fr(3, 10)) if order == 0 else (Fr(3, 10), Fr(1, 2))), ((Fr(1, 5), Fr(1, 10)) if order == 0 else (Fr(1, 10), Fr(1, 5)))):
+                        fix = {'cut_adh': ca, 'cut_rep': cr, 'lmin': Fr(1, 10), 'k_adh': Fr(13, 10), 'k_rep': Fr(21, 10)}
+                        cache = {}
+                        pc2 = [S.subst(c_, fix, cache) for c_ in pc]; cl2 = S.subst(claim, fix, cache)
+                        st2, m2 = SV.prove(z2, pc2, cl2, 20000)
+                        if st2 == 'violated':
+                            m2 = dict(m2 or {}); m2.update(fix)
+                            stt, model = 'violated', m2
+                            break
                 item['obs'].append((name, stt, model, time.time() - t, core, False))
             Fn = [S.R(x) for x in F[1]]
             Ff = [[S.R(x) for x in F[4 + j]] for j in fn]
